@@ -2,4 +2,5 @@ import Cgm.Lemmas.AuditCmd
 import Cgm.E2E.C13
 import Cgm.E2E.C13b
 import Cgm.E2E.C13c
+import Cgm.E2E.C13d
 #audit_namespace Cg.E2E.C13
